@@ -152,10 +152,13 @@ func runC08(rc *RunCtx, i int) {
 			n := 3 + p%4
 			for k := 0; k < n; k++ {
 				rowMu.Lock()
-				rows, recs := makeBatch(rowRand, env.w, "normal")
+				// batches the ingest actor answers itself (empty, nil, unmarshalable) go through
+				// a different delivery site than flushed ones: both must obey the deadline
+				bk := core.Pick(rowRand, []string{"normal", "normal", "normal", "normal", "empty", "nilrows", "unmarshalable"})
+				rows, recs := makeBatch(rowRand, env.w, bk)
 				rowMu.Unlock()
 				o := led.newOp("ingest")
-				o.Batch, o.Rows, o.recs = "normal", len(rows), recs
+				o.Batch, o.Rows, o.recs = bk, len(rows), recs
 				armu.Lock()
 				ab := ar.Chance(abandonP)
 				armu.Unlock()
@@ -332,9 +335,13 @@ func runC08(rc *RunCtx, i int) {
 	// unwedge: from here on the stores are responsive
 	gate.Open()
 	if !returnedOnItsOwn {
-		<-stopDone
-		rc.Violate(i, "stop-ignored-deadline", "", fmt.Sprintf("Stop(%s context, deadline %s) had not returned %s after the call; it returned only once the harness unwedged the store", ctxKind, deadline, limit), desc)
-		led.close()
+		how := "it returned only once the harness unwedged the store"
+		select {
+		case <-stopDone:
+		case <-time.After(5 * time.Second):
+			how = "it has still not returned 5 s after the harness unwedged the store"
+		}
+		rc.Violate(i, "stop-ignored-deadline", "", fmt.Sprintf("Stop(%s context, deadline %s) had not returned %s after the call; %s", ctxKind, deadline, limit, how), map[string]any{"history": desc, "dump": core.Trunc(strings.Join(engineStacks(allStacks(), ").Stop", ").ingestWorker", ").flushWorker", ").IngestRows"), "\n"), 6000)})
 		return
 	}
 	lateWG.Wait()
